@@ -51,6 +51,14 @@ GEN_SPEC = {"items": [
     {"kind": "calls", "file": "api/internal/response/withcoderesponsewriter.go", "func": "WithCodeResponseWriter.WriteHeader", "as": "sk_wc_wh"},
     {"kind": "calls", "file": "rpc/internal/server.go", "func": "server.Start", "as": "sk_rpc_start"},
     {"kind": "calls", "file": "rpc/internal/baseserver.go", "func": "baseServer.AddUnaryInterceptors", "as": "sk_rpc_addunary"},
+    # public middleware plumbing (one construction of the guard per installation) and the logging helper of the error paths
+    {"kind": "calls", "file": "api/server.go", "func": "ToMiddleware", "as": "sk_tomiddleware"},
+    {"kind": "calls", "file": "api/server.go", "func": "WithMiddleware", "as": "sk_withmiddleware"},
+    {"kind": "calls", "file": "api/server.go", "func": "WithMiddlewares", "as": "sk_withmiddlewares"},
+    {"kind": "calls", "file": "api/server.go", "func": "Server.Use", "as": "sk_use"},
+    {"kind": "calls", "file": "api/engine.go", "func": "convertMiddleware", "as": "sk_convertmiddleware"},
+    {"kind": "calls", "file": "api/httpx/utils.go", "func": "GetRemoteAddr", "as": "sk_getremoteaddr"},
+    {"kind": "calls", "file": "api/internal/log.go", "func": "formatWithReq", "as": "sk_formatwithreq"},
 ]}
 
 
@@ -139,6 +147,11 @@ RULE = ("50% REST timeout cases: handler scripts of 0-6 actions (Set/Add/Del hea
         "server incl. the informational responses; 32 panics through the full chain x timeout off/on x brief/detailed log; 36+12 "
         "cases under an application-wide httpx error handler {none, SetErrorHandler, SetErrorHandlerCtx} x {deadline, cancel, "
         "httpx.Error, httpx.ErrorCtx} x {nil, error, JSON body}; "
+        "degenerate client header values (',', ', ,', empty, 8 KB, non-ASCII) in X-Forwarded-For / X-Real-Ip / User-Agent on the "
+        "guards' error branches (panic -> 500, Content-Length > MaxBytes -> 413, MaxConns saturated -> 503; also through the "
+        "engine chain); a client that cancels over a real connection while its handler is parked behind the FULL engine chain "
+        "(499 observed in front of the chain, at the cancel); MaxConns(n) and BreakerHandler installed through Server.Use / "
+        "WithMiddleware / WithMiddlewares + ToMiddleware (admission schedules over real HTTP; 60 failing requests in a row); "
         "rpc.NewServer(Timeout in {0, 100 ms, 60 s}, CpuThreshold in {0, 1000}) + Start with a context-ignoring handler parked "
         "300 ms; plus a fixed matrix: every panic-value kind x {nothing committed, header set, "
         "status committed, timeout=0 bypass} through Timeout+Recover and x {timeout interceptor in between, Timeout<=0} through "
@@ -573,6 +586,62 @@ def g_matrix(rng):
     return out
 
 
+HDR_KINDS = ["sep1", "sep2", "empty", "long", "nonascii", "normal"]
+HDR_NAMES = ["X-Forwarded-For", "X-Real-Ip", "User-Agent"]
+
+
+def gen_hdrs(rng, kind=None):
+    """client-controlled header values the guards' error paths hand to their logging helpers"""
+    kind = kind or rng.choice(HDR_KINDS)
+    names = HDR_NAMES if rng.random() < 0.5 else [rng.choice(HDR_NAMES)]
+    return [{"n": n, "kind": kind} for n in names]
+
+
+def hdr_matrix(rng):
+    """every degenerate value on the three error branches: handler panic -> 500, Content-Length > MaxBytes -> 413, MaxConns
+    saturated -> 503 (in-package), and panic -> 500 through the engine chain"""
+    out = []
+    none = {"mode": "none", "k": 0, "cause": "none"}
+    for kind in HDR_KINDS:
+        hd = [{"n": n, "kind": kind} for n in HDR_NAMES]
+        out.append({"kind": "tw", "recover": True, "bypass": "none", "maxbytes": 0, "clen": -1, "rh0": [], "hdrs": hd,
+                    "acts": [{"a": "panic", "pv": rng.choice(PV_NONNIL)}], "fire": dict(none)})
+        out.append({"kind": "tw", "recover": True, "bypass": "none", "maxbytes": 10, "clen": 11, "rh0": [], "hdrs": hd,
+                    "acts": [{"a": "w", "b": "x"}], "fire": dict(none)})
+        out.append({"kind": "conns", "n": 1, "reqs": 3, "inner": rng.random() < 0.5, "hdrs": hd,
+                    "ops": [{"op": "enter", "i": 0}, {"op": "enter", "i": 1}, {"op": "leave", "i": 0, "panic": True},
+                            {"op": "enter", "i": 2}]})
+        out.append({"kind": "e2ec", "gtimeout_ms": rng.choice([0, LARGE_MS]), "rtimeout_ms": 0, "verbose": rng.random() < 0.5,
+                    "hold_ms": 0, "k": 0, "full": True, "ref": True, "hdrs": hd, "acts": [{"a": "panic", "pv": "string"}]})
+    return out
+
+
+def cancel_matrix(rng):
+    """a client that goes away mid-request, before any deadline, through engine.bindRoute's full chain: 499 at the cancel"""
+    out = []
+    for verbose in (False, True):
+        for r in (0, LARGE_MS):
+            acts = [{"a": "set", "k": 0, "v": 1}, {"a": "wh", "c": 201}, {"a": "w", "b": "late"}]
+            out.append({"kind": "e2ec", "gtimeout_ms": LARGE_MS, "rtimeout_ms": r, "verbose": verbose, "hold_ms": 1500,
+                        "k": rng.randint(0, len(acts)), "cancel": True, "full": True, "ref": False, "acts": acts,
+                        "hdrs": gen_hdrs(rng) if rng.random() < 0.5 else []})
+    return out
+
+
+def plumbing_matrix(rng):
+    """stateful guards installed through the PUBLIC plumbing (Server.Use / WithMiddleware(s) + ToMiddleware)"""
+    out = []
+    for via in ("use", "route", "routes"):
+        for n in (1, 2):
+            ops = [{"op": "enter", "i": i} for i in range(n + 1)]
+            ops += [{"op": "leave", "i": 0, "panic": rng.random() < 0.5}, {"op": "enter", "i": n + 1},
+                    {"op": "enter", "i": n + 2}, {"op": "leave", "i": 1 if n > 1 else n + 1, "panic": False}]
+            out.append({"kind": "e2ecn", "guard": "maxconns", "via": via, "n": n, "reqs": n + 3, "ops": ops})
+    for via in ("use", "route"):
+        out.append({"kind": "e2ecn", "guard": "breaker", "via": via, "total": 60})
+    return out
+
+
 def gen_rsrv(rng, timeout=None, hold=None):
     """a unary call through a real started rpc server (rpc.NewServer + Start on loopback)"""
     timeout = rng.choice([0, RSMALL_MS, RSMALL_MS, LARGE_MS]) if timeout is None else timeout
@@ -635,6 +704,11 @@ def generate(rng, tier, n):
             cases.append(gen_rmulti(rng))
     cases += value_matrix(e2e=tier in ("thorough", "search"))
     cases += config_matrix(rng) + rsrv_matrix(rng) + status_matrix(rng) + panic_chain_matrix(rng) + g_matrix(rng)
+    cases += hdr_matrix(rng) + cancel_matrix(rng) + plumbing_matrix(rng)
+    for c in cases:             # a small adversarial-header dimension on the random error-path cases too
+        if "hdrs" not in c and rng.random() < 0.3 and (
+                (c.get("kind") == "tw" and (_has_panic(c) or 0 < c["maxbytes"] < c["clen"])) or c.get("kind") == "conns"):
+            c["hdrs"] = gen_hdrs(rng)
     cases += [gen_g(rng) for _ in range(120 if tier == "thorough" else 12)]
     extra = 60 if tier == "thorough" else 8
     cases += [gen_e2ec(rng) for _ in range(extra)] + [gen_rsrv(rng) for _ in range(2 * extra)]
@@ -706,7 +780,7 @@ def as_tw(c):
 def drive(cases, tier):
     rest = [c for c in cases if c.get("kind") in ("tw", "conns", "multi", "g")]
     rpc = [c for c in cases if c.get("kind") in ("rpc", "rmulti")]
-    e2e = [c for c in cases if c.get("kind") in ("e2e", "e2em", "e2ec")]
+    e2e = [c for c in cases if c.get("kind") in ("e2e", "e2em", "e2ec", "e2ecn")]
     rsrv = [c for c in cases if c.get("kind") == "rsrv"]
     log = ""
     tag = {"quick": "", "thorough": "t", "search": "s"}.get(tier, tier[:1])
@@ -738,7 +812,7 @@ def drive(cases, tier):
     if obs_rsrv is None:
         return None, log
     it_rpc, it_e2e, it_rest, it_rsrv = iter(obs_rpc), iter(obs_e2e), iter(obs_rest), iter(obs_rsrv)
-    its = {"rpc": it_rpc, "rmulti": it_rpc, "e2e": it_e2e, "e2em": it_e2e, "e2ec": it_e2e, "rsrv": it_rsrv}
+    its = {"rpc": it_rpc, "rmulti": it_rpc, "e2e": it_e2e, "e2em": it_e2e, "e2ec": it_e2e, "e2ecn": it_e2e, "rsrv": it_rsrv}
     return [next(its[c["kind"]]) if c.get("kind") in its else next(it_rest) for c in cases], log
 
 
@@ -796,6 +870,12 @@ def c_event(e):
 
 def encode(case, obs):
     kind = case.get("kind")
+    if kind == "e2ecn":
+        if case["guard"] == "breaker":
+            return "CaseB (mkbc %s %s %s %s)" % (cnat(obs.get("total", case["total"])), cnat(obs.get("failed", 0)),
+                                                 cnat(obs.get("rejected", 0)), cnat(obs.get("other", 0) + (1 if "driver_panic" in obs else 0)))
+        # the same admission schedule as the in-package kind, around the engine's Timeout+Recover
+        return encode(dict(case, kind="conns", inner=True), obs)
     if kind == "g":
         gc = case["gconf"]
         gb = {"nil": "GBNil", "err": "GBErr", "json": "GBJson"}[gc["body"]]
@@ -827,9 +907,9 @@ def encode(case, obs):
                 clist([cZ(x) for x in ref.get("info") or []]))
         else:
             cref = "None"
-        return "CaseE (mkec %s %s %s %s %s %s (mkresp %s %s %s) %s %s %s %s %s)" % (
+        return "CaseE (mkec %s %s %s %s %s %s %s (mkresp %s %s %s) %s %s %s %s %s)" % (
             cZ(case["gtimeout_ms"]), cZ(case["rtimeout_ms"]), cbool(case["verbose"]), cZ(case["hold_ms"]), cnat(case["k"]),
-            clist([c_action(a) for a in case["acts"]]), cZ(r.get("status", 0)), c_hdrs(r.get("h")), body,
+            cbool(case.get("cancel", False)), clist([c_action(a) for a in case["acts"]]), cZ(r.get("status", 0)), c_hdrs(r.get("h")), body,
             clist([c_outcome(t) for t in obs.get("trace") or []]), cbool(answered), cbool(obs.get("prompt", False)),
             clist([cZ(x) for x in r.get("info") or []]), cref)
     if kind == "rsrv":
@@ -939,6 +1019,8 @@ def _has_panic(case):
 
 def nontrivial(case, obs):
     k = case.get("kind")
+    if k == "e2ecn":
+        return True
     if k == "g":
         return case["gconf"]["mode"] != "none" or case["fire"]["mode"] != "none"
     if k == "e2ec":
@@ -959,6 +1041,15 @@ def nontrivial(case, obs):
 def bucket(case, obs):
     k = case.get("kind")
     out = ["kind:" + k]
+    for h in case.get("hdrs") or []:
+        out.append("hdr:%s=%s" % (h["n"], h["kind"]))
+    if k == "e2ecn":
+        out.append("e2ecn.%s/%s" % (case["guard"], case["via"]))
+        if case["guard"] == "breaker":
+            out.append("e2ecn.breaker-rejected=%s" % obs.get("rejected"))
+        return out
+    if k == "e2ec" and case.get("cancel"):
+        out.append("e2ec.client-cancel")
     if k == "g":
         out.append("g.handler=%s/%s" % (case["gconf"]["mode"], case["gconf"]["body"]))
         out.append("g.fire:%s/%s" % (case["fire"]["mode"], case["fire"]["cause"]))
@@ -1046,6 +1137,11 @@ def bucket(case, obs):
 
 def explain(case, obs):
     k = case.get("kind")
+    if k == "e2ecn":
+        return ("a stateful guard installed through the public plumbing (Server.Use / WithMiddleware(s) + ToMiddleware; theorem "
+                "c02_limiter_state_is_shared): MaxConns(n) must turn away (503, handler not run) exactly the arrival that finds n "
+                "requests inside and admit again once one has left; a breaker must cut off a route whose 60 requests all fail -- "
+                "the guard's state belongs to the installation, not to the request")
     if k == "g":
         return ("application-wide httpx error handler (C02.Exec.spec_ok_g, theorem c02_timeout_reply_ignores_plain_error_handler): a "
                 "handler parked at its deadline must be answered 503 (499 on client cancel) + 'Request Timeout' whatever "
